@@ -58,9 +58,9 @@ Proof. intro H. apply hnv_roundtrip. lia. Qed.
 Lemma key_usage_roundtrip v : (0 <= v < 2 ^ 32)%Z -> key_usage_of_json (key_usage_to_json v) = Ok v.
 Proof.
   intro Hv. unfold key_usage_of_json, key_usage_to_json.
-  erewrite (obj_rt_ex ku_fields).
-  - cbn [rbind]. rewrite Z.mod_small by lia. reflexivity.
-  - unfold ku_fields, k_u32. rt_obj. apply Z.mod_pos_bound. lia. pose proof (Z.mod_pos_bound v (2^32)). lia.
+  erewrite (obj_rt_ex ku_fields); cycle 1.
+  { unfold ku_fields, k_u32. rt_obj; pose proof (Z.mod_pos_bound v (2^32)); lia. }
+  cbn [rbind]. rewrite Z.mod_small by lia. reflexivity.
 Qed.
 
 Lemma ecid_roundtrip v : (0 <= v < 2 ^ 16)%Z -> dec c_ecid (enc c_ecid v) = Ok v.
@@ -76,15 +76,15 @@ Lemma sig_code_roundtrip s : (0 <= s < 2 ^ 8)%Z -> code_of_name signature_names 
 Proof.
   intro Hs.
   assert (H: (fun v => Ok (code_of_name signature_names (sig_name v))) s = Ok s).
-  { apply (enum_rt (fun _ => true) _ 8); [vm_compute; reflexivity|exact Hs|reflexivity]. }
-  now inversion H.
+  { apply (enum_rt (fun _ => true) (fun v => Ok (code_of_name signature_names (sig_name v))) 8); [vm_compute; reflexivity|exact Hs|reflexivity]. }
+  cbv beta in H. congruence.
 Qed.
 Lemma hash_code_roundtrip h : (0 <= h < 2 ^ 8)%Z -> code_of_name hash_names (hash_name h) = h.
 Proof.
   intro Hs.
   assert (H: (fun v => Ok (code_of_name hash_names (hash_name v))) h = Ok h).
-  { apply (enum_rt (fun _ => true) _ 8); [vm_compute; reflexivity|exact Hs|reflexivity]. }
-  now inversion H.
+  { apply (enum_rt (fun _ => true) (fun v => Ok (code_of_name hash_names (hash_name v))) 8); [vm_compute; reflexivity|exact Hs|reflexivity]. }
+  cbv beta in H. congruence.
 Qed.
 Lemma sighash_roundtrip s h : (0 <= s < 2 ^ 8)%Z -> (0 <= h < 2 ^ 8)%Z ->
   sighash_of_json (sighash_to_json s h) = Ok (s, h).
@@ -153,28 +153,142 @@ Proof.
   intro Hv. unfold client_auth_of_json, client_auth_to_json.
   assert (D: names_distinct client_auth_names = true) by (vm_compute; reflexivity).
   assert (NP: no_prefix "ClientAuthType(" client_auth_names = true) by (vm_compute; reflexivity).
-  unfold client_auth_name at 1, name_of.
   destruct (lookupZ client_auth_names v) as [n|] eqn:L.
-  - now rewrite (lookup_rlookup _ _ _ D L).
-  - destruct (rlookup client_auth_names ("ClientAuthType(" ++ dec_of_Z v ++ ")")) as [k|] eqn:R.
+  - assert (E: client_auth_name v = n) by (unfold client_auth_name, name_of; now rewrite L).
+    rewrite E. now rewrite (lookup_rlookup _ _ _ D L).
+  - assert (E: client_auth_name v = "ClientAuthType(" ++ dec_of_Z v ++ ")")
+      by (unfold client_auth_name, name_of; now rewrite L).
+    rewrite !E.
+    destruct (rlookup client_auth_names ("ClientAuthType(" ++ dec_of_Z v ++ ")")) as [k|] eqn:R.
     + apply rlookup_in in R. unfold no_prefix in NP. rewrite forallb_forall in NP. specialize (NP _ R).
       cbn [snd] in NP. rewrite trim_prefix_app in NP. discriminate.
     + rewrite trim_prefix_app. rewrite unsnoc_app. rewrite Ascii.eqb_refl.
       rewrite parse_int_dec by (simpl; lia).
-      unfold client_auth_name, name_of. rewrite L. now rewrite String.eqb_refl.
+      rewrite E. now rewrite String.eqb_refl.
 Qed.
 
 (* ================= key parameters ================= *)
-Definition canon (s : string) : Prop := strip0 s = s.
-Definition ocanon (o : option string) : Prop := match o with Some b => canon b | None => True end.
+(* a *big.Int is observed as its magnitude bytes: no leading zero byte *)
+Definition okmag (s : string) : Prop := strip0 s = s /\ (bits_of s <= int64_hi)%Z.
+Definition ookmag (o : option string) : Prop := match o with Some b => okmag b | None => True end.
 Definition or_empty (o : option string) : string := match o with Some b => b | None => "" end.
 
-Lemma cparam_rt : codec_rt c_cparam ocanon or_empty.
+Lemma bits_of_nonneg s : (0 <= bits_of s)%Z.
+Proof. unfold bits_of. lia. Qed.
+
+Lemma cparam_rt : codec_rt c_cparam ookmag or_empty.
 Proof.
   intros p Hp. split; [discriminate|].
   unfold c_cparam. cbn [enc dec].
-  erewrite (obj_rt_ex cparam_fields).
-  - cbn [rbind]. destruct p as [b|]; [exact (f_equal Ok Hp)|reflexivity].
-  - unfold cparam_fields, k_i64. rt_obj; destruct p; unfold bits_of, int64_lo, int64_hi; try lia.
-    + admit_placeholder.
-Abort.
+  erewrite (obj_rt_ex cparam_fields); cycle 1.
+  { unfold cparam_fields, k_i64. rt_obj.
+    - destruct p; [pose proof (bits_of_nonneg s)|]; unfold int64_lo; lia.
+    - destruct p as [b|]; [exact (proj2 Hp)|unfold int64_hi; lia]. }
+  cbn [rbind]. destruct p as [b|]; [exact (f_equal Ok (proj1 Hp))|reflexivity].
+Qed.
+#[export] Hint Resolve cparam_rt : c33rt.
+
+(* ECPoint: X is always written (a nil X as an empty value, which decodes to 0) *)
+Definition ecpoint_ok (p : ecpoint_t) : Prop := ookmag (fst p) /\ ookmag (snd p).
+Definition ecpoint_norm (p : ecpoint_t) : ecpoint_t := (Some (or_empty (fst p)), snd p).
+Lemma ecpoint_rt : codec_rt c_ecpoint ecpoint_ok ecpoint_norm.
+Proof.
+  intros [x y] [Hx Hy]. split; [discriminate|]. cbn [fst snd] in *.
+  unfold c_ecpoint, ecpoint_enc, ecpoint_dec. cbn [enc dec fst snd].
+  erewrite (obj_rt_ex ecpoint_fields); cycle 1.
+  { unfold ecpoint_fields. eexists. eexists. split; [rt_fields|]. split.
+    - cbn [fst snd opt_valid]. repeat split; auto. destruct y; cbn; auto.
+    - reflexivity. }
+  cbn [rbind fst snd option_map]. unfold ecpoint_norm. cbn [fst snd]. destruct y; reflexivity.
+Qed.
+#[export] Hint Resolve ecpoint_rt : c33rt.
+
+(* the point MarshalJSON writes for X25519 made the unrepaired UnmarshalJSON panic *)
+Lemma ecpoint_unrepaired_panics :
+  ecpoint_dec_unrepaired (ecpoint_enc (Some (bs [5%N]), None)) = Panic.
+Proof. vm_compute. reflexivity. Qed.
+
+Definition dh_ok (p : dh_t) : Prop :=
+  let '(pr, (g, (sp, (sk, (cp, (ck, (ss, _))))))) := p in
+  ookmag pr /\ ookmag g /\ ookmag sp /\ ookmag sk /\ ookmag cp /\ ookmag ck /\ ookmag ss.
+(* prime and generator are always written: nil decodes to 0 *)
+Definition dh_norm (p : dh_t) : dh_t :=
+  let '(pr, (g, rest)) := p in (Some (or_empty pr), (Some (or_empty g), rest)).
+Lemma wrap_norm o : option_map or_empty (wrap o) = o.
+Proof. destruct o; reflexivity. Qed.
+Lemma wrap_ok o : ookmag o -> opt_valid ookmag (wrap o).
+Proof. destruct o; simpl; auto. Qed.
+Lemma dh_rt : codec_rt c_dh dh_ok dh_norm.
+Proof.
+  intros [pr [g [sp [sk [cp [ck [ss []]]]]]]] (H1 & H2 & H3 & H4 & H5 & H6 & H7). split; [discriminate|].
+  unfold c_dh, dh_enc, dh_dec. cbn [enc dec].
+  erewrite (obj_rt_ex dh_fields); cycle 1.
+  { unfold dh_fields. eexists. eexists. split; [rt_fields|]. split.
+    - cbn [fst snd opt_valid]. repeat split; auto using wrap_ok.
+    - reflexivity. }
+  cbn [fst snd option_map dh_norm]. now rewrite !wrap_norm.
+Qed.
+
+Definition i64 (z : Z) : Prop := (int64_lo <= z <= int64_hi)%Z.
+Lemma ecdhpriv_rt : codec_rt c_ecdhpriv (fun p => i64 (fst (snd p))) (fun p => p).
+Proof.
+  intros [v [l []]] Hl. split; [discriminate|]. unfold c_ecdhpriv.
+  erewrite (obj_rt_ex ecdhpriv_fields); [reflexivity|].
+  unfold ecdhpriv_fields, k_i64. rt_obj; apply Hl.
+Qed.
+#[export] Hint Resolve ecdhpriv_rt : c33rt.
+
+Lemma ecid_rt : codec_rt c_ecid (fun v => (0 <= v < 2 ^ 16)%Z) (fun v => v).
+Proof. intros v Hv. split; [discriminate|]. now apply ecid_roundtrip. Qed.
+
+Definition oecpoint_ok (o : option ecpoint_t) : Prop := opt_valid ecpoint_ok o.
+Definition opriv_ok (o : option ecdhpriv_t) : Prop := opt_valid (fun q : ecdhpriv_t => i64 (fst (snd q))) o.
+Definition ecdh_ok (p : ecdh_t) : Prop :=
+  let '(c, (sp, (sk, (cp, (ck, _))))) := p in
+  (0 <= c < 2 ^ 16)%Z /\ oecpoint_ok sp /\ opriv_ok sk /\ oecpoint_ok cp /\ opriv_ok ck.
+Definition ecdh_norm (p : ecdh_t) : ecdh_t :=
+  let '(c, (sp, (sk, (cp, (ck, u))))) := p in
+  (c, (option_map ecpoint_norm sp, (sk, (option_map ecpoint_norm cp, (ck, u))))).
+Lemma option_map_id {A} (o : option A) : option_map (fun p => p) o = o.
+Proof. destruct o; reflexivity. Qed.
+Lemma ecdh_rt : codec_rt c_ecdh ecdh_ok ecdh_norm.
+Proof.
+  intros [c [sp [sk [cp [ck []]]]]] (H1 & H2 & H3 & H4 & H5). split; [discriminate|].
+  unfold c_ecdh. erewrite (obj_rt_ex ecdh_fields); cycle 1.
+  { unfold ecdh_fields. eexists. eexists. split.
+    - eapply rt_cons; [eapply k_val_rt; [apply ecid_rt|]|rt_keys|].
+      { intros a _ Ha. apply Z.eqb_eq in Ha. now subst. }
+      rt_fields.
+    - split; [cbn [fst snd]; repeat split; auto; lia|reflexivity]. }
+  cbn [fst snd ecdh_norm]. now rewrite !option_map_id.
+Qed.
+
+(* RSAPublicKey: a nil key is written as exponent 0 and an empty modulus *)
+Definition rsapub_ok (p : rsapub_t) : Prop := match p with Some (_, n) => okmag n | None => True end.
+Definition rsapub_norm (p : rsapub_t) : rsapub_t :=
+  match p with Some k => Some k | None => Some (0%Z, "") end.
+Lemma k_number_rt : fk_rt k_number (fun _ => True) Some.
+Proof. intros z _. reflexivity. Qed.
+Lemma rsapub_rt : codec_rt c_rsapub rsapub_ok rsapub_norm.
+Proof.
+  intros p Hp. split; [destruct p as [[]|]; discriminate|].
+  unfold c_rsapub, rsapub_enc, rsapub_dec. cbn [enc dec].
+  erewrite (obj_rt_ex rsapub_fields); cycle 1.
+  { unfold rsapub_fields, k_i64. eexists. eexists. split.
+    - eapply rt_cons; [apply k_number_rt|rt_keys|]. rt_fields.
+    - split; [|reflexivity]. destruct p as [[e n]|]; cbn [fst snd]; repeat split; auto.
+      + pose proof (bits_of_nonneg n). unfold int64_lo. lia.
+      + exact (proj2 Hp).
+      + unfold int64_lo. lia.
+      + unfold int64_hi. lia. }
+  destruct p as [[e n]|]; cbn [rbind fst snd].
+  - rewrite Z.eqb_refl. now rewrite (proj1 Hp).
+  - reflexivity.
+Qed.
+
+Lemma rsaclient_rt : codec_rt c_rsaclient (fun p => (0 <= fst p <= 65535)%Z) (fun p => p).
+Proof.
+  intros [l [v []]] Hl. split; [discriminate|]. unfold c_rsaclient.
+  erewrite (obj_rt_ex rsaclient_fields); [reflexivity|].
+  unfold rsaclient_fields, k_u16. rt_obj; apply Hl.
+Qed.
